@@ -133,7 +133,14 @@ def run(rep):
     for c in (trees if len(trees) <= per else rng.sample(trees, per)):
         wordfree.append({"line": {"form": "arith", "toks": c["min"]}, "text": render.render_arith(c["min"], ",", ".", "single"), "cfg": CFG, "expected": c["exp_min"],
                          "feat": {"form": "arith"}})
-    p5 = [it for it in forms.collect(c05, rep) if it["line"]["form"] == "pct_phrase" and it["line"]["w"] in "+-" and it["cfg"] == CFG]
+    # the percentage phrases are written with English words in every language's rule table (of / on / off / is what % of / of what): where
+    # every configured language has the rule, the phrase belongs to "percentages behave identically in every configured language"
+    rules_of = {l: set(render.config_json()["languages"][l].get("rules", {})) for l in langs}
+    shared = set.intersection(*rules_of.values()) if rules_of else set()
+    phrase_ok = {"+": True, "-": True, "of": "number_of" in shared, "on": "number_on" in shared, "off": "number_off" in shared}
+    p5 = [it for it in forms.collect(c05, rep) if it["cfg"] == CFG and
+          ((it["line"]["form"] == "pct_phrase" and phrase_ok.get(it["line"]["w"])) or (it["line"]["form"] == "pct_what" and "find_numbers_percent" in shared)
+           or (it["line"]["form"] == "pct_total" and "find_total_from_percent" in shared))]
     wordfree += p5 if len(p5) <= per else rng.sample(p5, per)
     p6 = [it for it in forms.collect(c06, rep) if it["cfg"] == CFG and (it["line"]["form"] in ("money_lit", "money_arith") or it.get("variant", "").endswith(".none"))
           and not any(ch.isalpha() and ord(ch) > 127 for ch in it["text"])]
